@@ -113,13 +113,16 @@ example : ∀ (a : List (String × Option (Int × Int))) (b : Bool) (c : List (S
 
 /-! ## 4. rows -/
 
-/-- **superrun_rows** (every input, every level, on the fly or stored).  For ANY world (chunk layouts of the
+/-- **superrun_rows — partial correctness** (every input, every level, on the fly or stored).  PARTIAL: it says
+what `get_iter` yields IF it returns; totality ("`get_array` returns …") is proved separately for the basic pipeline
+(`basic_pipeline_rows_total`, any gaps) and for adjacent subruns at any depth (`superrun_rows_total_adjacent`), and is
+FALSE of the code for subruns separated by a gap at depth ≥ 2 (open finding C14a).  For ANY world (chunk layouts of the
 subruns, plugin chain with arbitrary `allow_superrun` / `rechunk_on_save` / target sizes), any `sub_run_spec`, any
 storage content satisfying the invariant (in particular the empty one), any target level, combining or not,
 `write_superruns` on or off: if `get_iter` does not raise, the rows it yields are `rows r₁ ++ … ++ rows rₙ` in
 `sub_run_spec` order, and the storage invariant still holds.  `Canon` is any class of orderings in which the set of
 subruns determines the order (the data key only knows the set). -/
-theorem superrun_rows {κ : Type} [DecidableEq κ] (Canon : List String → Prop) (H : List (String × Option (Int × Int)) → Bool → κ)
+theorem superrun_rows_partial {κ : Type} [DecidableEq κ] (Canon : List String → Prop) (H : List (String × Option (Int × Int)) → Bool → κ)
     (hH : ∀ a b c d, H a b = H c d → a = c ∧ b = d) (hcanon : ∀ a b, Canon a → Canon b → a.Perm b → a = b)
     (w : World) (spec : List String) (sel : Sel) (store store' : Store κ) (n : Nat) (combining write : Bool) (y : List Chunk)
     (hs : Canon spec) (hi : StoreInv Canon H w store)
@@ -127,11 +130,13 @@ theorem superrun_rows {κ : Type} [DecidableEq κ] (Canon : List String → Prop
     StoreInv Canon H w store' ∧ (AllSel sel spec → rowsOf y = spec.flatMap (srcRows w)) :=
   superGet_rows hH hcanon hs hi h
 
-/-- **No stale data.**  Over any history of `get_iter` calls on one context — the superrun redefined at will
+/-- **No stale data — partial correctness.**  PARTIAL in two ways: it speaks about the calls that return, and the
+history `runOps` ENDS at the first call that raises (what a failed `get_iter` leaves behind in storage is outside the
+model), so "any history" means "any error-free prefix".  Over any history of `get_iter` calls on one context — the superrun redefined at will
 between calls, levels / combining / `write_superruns` varying — every call that returns yields exactly the rows of
 the definition in force at that call: stored superrun data of another definition is never served.  Hypothesis: the
 specs of the history come from a class in which the subrun set determines the order … -/
-theorem redefinition_never_serves_stale_data {κ : Type} [DecidableEq κ] (Canon : List String → Prop)
+theorem redefinition_never_serves_stale_data_partial {κ : Type} [DecidableEq κ] (Canon : List String → Prop)
     (H : List (String × Option (Int × Int)) → Bool → κ) (hH : ∀ a b c d, H a b = H c d → a = c ∧ b = d)
     (hcanon : ∀ a b, Canon a → Canon b → a.Perm b → a = b) (w : World) (ops : List GetOp)
     (hs : ∀ op ∈ ops, Canon op.spec) :
@@ -139,7 +144,7 @@ theorem redefinition_never_serves_stale_data {κ : Type} [DecidableEq κ] (Canon
   runOps_rows hH hcanon w ops [] (storeInv_nil Canon H w) hs
 
 /-- … which holds for everything `define_run` produces from run documents with pairwise distinct starts -/
-theorem redefinition_never_serves_stale_data_start_order {κ : Type} [DecidableEq κ] (H : List (String × Option (Int × Int)) → Bool → κ)
+theorem redefinition_never_serves_stale_data_start_order_partial {κ : Type} [DecidableEq κ] (H : List (String × Option (Int × Int)) → Bool → κ)
     (hH : ∀ a b c d, H a b = H c d → a = c ∧ b = d) (w : World) (docs : List (String × Int)) (ops : List GetOp)
     (hs : ∀ op ∈ ops, StartSorted docs op.spec) :
     ∀ p ∈ runOps H w [] ops, AllSel p.1.sel p.1.spec → rowsOf p.2 = p.1.spec.flatMap (srcRows w) :=
@@ -156,9 +161,11 @@ definitions of the same set then share the key but not the order — the id-sort
 too (non-vacuity of `hcanon` for both classes) -/
 example : ∀ a b : List String, sortIds a = a → sortIds b = b → a.Perm b → a = b := canon_sortIds
 
-/-- **superrun_rows in order of run start** (full, for the code after fix D27).  `define_run` followed by
+/-- **superrun_rows in order of run start — partial correctness** (for the code after fix D27; PARTIAL: "if it
+returns", totality see `superrun_rows_total_adjacent`; the order claim is `≤` on run starts, ties in listing order,
+see `defineRun_order`).  `define_run` followed by
 `get_iter`: the rows are the listed subruns' rows, each subrun once, concatenated in order of run start. -/
-theorem superrun_rows_in_start_order {κ : Type} [DecidableEq κ] (H : List (String × Option (Int × Int)) → Bool → κ)
+theorem superrun_rows_in_start_order_partial {κ : Type} [DecidableEq κ] (H : List (String × Option (Int × Int)) → Bool → κ)
     (hH : ∀ a b c d, H a b = H c d → a = c ∧ b = d) (w : World) (docs : List (String × Int)) (data startSpec : List String)
     (hdef : defineRun docs data = .ok startSpec)
     (store' : Store κ) (n : Nat) (combining write : Bool) (y : List Chunk)
@@ -181,13 +188,14 @@ theorem windowed_subrun_rows_sublist (tr : Int × Int) (cs out : List Chunk) (h 
   applyTimeRange_sublist tr cs out h
 
 /-- a row-wise plugin level with one dependency keeps the rows of ANY input stream (superrun or not, valid or
-not) whenever it does not raise -/
-theorem plugin_level_rows (lv : Level) (runId : String) (cs outs : List Chunk) (h : pluginRun lv runId cs = .ok outs) :
+not) whenever it does not raise (partial correctness; totality on loader streams: `first_level_explicit`) -/
+theorem plugin_level_rows_partial (lv : Level) (runId : String) (cs outs : List Chunk) (h : pluginRun lv runId cs = .ok outs) :
     rowsOf outs = rowsOf cs :=
   pluginRun_rows h
 
-/-- saving with rechunking across subrun borders (`Rechunker` with `is_superrun`) and re-reading keeps the rows -/
-theorem stored_and_reread_rows (a : Int) (lv : Level) (runId : String) (cs saved loaded : List Chunk)
+/-- saving with rechunking across subrun borders (`Rechunker` with `is_superrun`) and re-reading keeps the rows —
+if both return (partial correctness; totality without rechunking: `written_and_reread_identical`) -/
+theorem stored_and_reread_rows_partial (a : Int) (lv : Level) (runId : String) (cs saved loaded : List Chunk)
     (h1 : save a lv runId cs = .ok saved) (h2 : saved.mapM reload = .ok loaded) : rowsOf loaded = rowsOf cs := by
   rw [mapM_reload_rows h2, save_rows h1]
 
@@ -319,6 +327,37 @@ theorem basic_pipeline_total {κ : Type} [DecidableEq κ] (H : List (String × O
     superGet H w spec [] [] 1 false false = .ok (expected l1 w.superName none (loaderStream w l0 spec), []) :=
   superGet_basic H h
 
+/-- **superrun_rows, total, basic pipeline (any gaps).**  `get_iter` returns, and the rows are the subruns' rows in
+`sub_run_spec` order. -/
+theorem basic_pipeline_rows_total {κ : Type} [DecidableEq κ] (H : List (String × Option (Int × Int)) → Bool → κ)
+    (hH : ∀ a b c d, H a b = H c d → a = c ∧ b = d) (w : World) (l0 l1 : Level) (spec : List String)
+    (h : WorldOK w l0 l1 spec) :
+    ∃ y, superGet H w spec [] [] 1 false false = .ok (y, []) ∧ rowsOf y = spec.flatMap (srcRows w) := by
+  refine ⟨_, superGet_basic H h, ?_⟩
+  exact (superGet_rows (Canon := fun s => s = spec) hH (by intro a b ha hb _; rw [ha, hb]) rfl
+    (storeInv_nil _ H w) (superGet_basic H h)).2 (fun _ _ => rfl)
+
+/-- **superrun_rows, total, adjacent subruns, any depth.**  Source plugin + any number `≥ 1` of superrun-capable
+levels, subruns adjacent in time (`WorldAdj`): `get_iter` at the topmost level returns, passes `continuity_check`,
+yields the first level's chunks re-tagged, and the rows are the subruns' rows in `sub_run_spec` order. -/
+theorem superrun_rows_total_adjacent {κ : Type} [DecidableEq κ] (H : List (String × Option (Int × Int)) → Bool → κ)
+    (hH : ∀ a b c d, H a b = H c d → a = c ∧ b = d) (w : World) (l0 l1 top : Level) (ls : List Level)
+    (spec : List String) (h : WorldAdj w l0 l1 ls spec) (htop : (l1 :: ls).getLast? = some top) :
+    superGet H w spec [] [] (ls.length + 1) false false
+      = .ok ((expected l1 w.superName none (loaderStream w l0 spec)).map (retag top), []) ∧
+    rowsOf ((expected l1 w.superName none (loaderStream w l0 spec)).map (retag top)) = spec.flatMap (srcRows w) := by
+  have hg := superGet_adjacent H h htop
+  exact ⟨hg, (superGet_rows (Canon := fun s => s = spec) hH (by intro a b ha hb _; rw [ha, hb]) rfl
+    (storeInv_nil _ H w) hg).2 (fun _ _ => rfl)⟩
+
+/-- non-vacuity of the history theorems: on a `WorldOK` world the one-call history returns (so `runOps` is not
+empty and the statement of `redefinition_never_serves_stale_data_partial` speaks about an actual call) -/
+example {κ : Type} [DecidableEq κ] (H : List (String × Option (Int × Int)) → Bool → κ) (w : World) (l0 l1 : Level)
+    (spec : List String) (h : WorldOK w l0 l1 spec) :
+    runOps H w [] [⟨spec, [], 1, false, false⟩]
+      = [(⟨spec, [], 1, false, false⟩, expected l1 w.superName none (loaderStream w l0 spec))] := by
+  simp [runOps, superGet_basic H h]
+
 /-- non-vacuity: subruns `a = [0,10) ++ [10,20)`, `b = [30,40)` (a gap of 10 between them) -/
 example : WorldOK ⟨-1, "_s", [⟨"l0", false, false, 5⟩, ⟨"l1", true, false, 5⟩],
       [("a", [⟨0, 10, [⟨1, 2, 0⟩]⟩, ⟨10, 20, []⟩]), ("b", [⟨30, 40, [⟨31, 32, 1⟩]⟩])]⟩
@@ -341,6 +380,31 @@ example : WorldOK ⟨-1, "_s", [⟨"l0", false, false, 5⟩, ⟨"l1", true, fals
     refine ⟨"a", ⟨rfl, rfl, rfl, rfl, by decide, by decide, ?_⟩, by decide, trivial,
             "a", ⟨rfl, rfl, rfl, rfl, by decide, by decide, ?_⟩, by decide, ⟨by decide, fun _ => rfl⟩,
             "b", ⟨rfl, rfl, rfl, rfl, by decide, by decide, ?_⟩, by decide, ⟨by decide, fun h => absurd h (by decide)⟩, trivial⟩
+    all_goals (intro x hx; simp [loaderOf] at hx; try (subst hx; decide))
+
+/-- non-vacuity of `WorldAdj`: `a = [0,10) ++ [10,20)` directly followed by `b = [20,30)`, two superrun levels -/
+example : WorldAdj ⟨-1, "_s", [⟨"l0", false, false, 5⟩, ⟨"l1", true, false, 5⟩, ⟨"l2", true, true, 5⟩],
+      [("a", [⟨0, 10, [⟨1, 2, 0⟩]⟩, ⟨10, 20, []⟩]), ("b", [⟨20, 30, [⟨21, 22, 1⟩]⟩])]⟩
+    ⟨"l0", false, false, 5⟩ ⟨"l1", true, false, 5⟩ [⟨"l2", true, true, 5⟩] ["a", "b"] := by
+  refine ⟨rfl, rfl, rfl, ?_, by simp [isSuperId], ?_, by simp, ?_⟩
+  · intro lv hlv; simp at hlv; rcases hlv with rfl | rfl <;> rfl
+  · intro rid hr
+    simp at hr
+    rcases hr with rfl | rfl
+    · refine ⟨_, rfl, by simp, by simp [isSuperId], ?_⟩
+      intro c hc; simp at hc
+      rcases hc with rfl | rfl
+      · exact ⟨by decide, by decide, by intro x hx; simp at hx; subst hx; decide⟩
+      · exact ⟨by decide, by decide, by intro x hx; simp at hx⟩
+    · refine ⟨_, rfl, by simp, by simp [isSuperId], ?_⟩
+      intro c hc; simp at hc; subst hc
+      exact ⟨by decide, by decide, by intro x hx; simp at hx; subst hx; decide⟩
+  · show AdjStream "l0" "_s" none
+      [loaderOf ⟨"l0", false, false, 5⟩ "a" ⟨0, 10, [⟨1, 2, 0⟩]⟩, loaderOf ⟨"l0", false, false, 5⟩ "a" ⟨10, 20, []⟩,
+       loaderOf ⟨"l0", false, false, 5⟩ "b" ⟨20, 30, [⟨21, 22, 1⟩]⟩]
+    refine ⟨"a", ⟨rfl, rfl, rfl, rfl, by decide, by decide, ?_⟩, by decide, (fun _ _ h => by cases h),
+            "a", ⟨rfl, rfl, rfl, rfl, by decide, by decide, ?_⟩, by decide, (fun _ _ h => by cases h; rfl),
+            "b", ⟨rfl, rfl, rfl, rfl, by decide, by decide, ?_⟩, by decide, (fun _ _ h => by cases h; rfl), trivial⟩
     all_goals (intro x hx; simp [loaderOf] at hx; try (subst hx; decide))
 
 end Strax.C14
